@@ -332,11 +332,11 @@ func TestVerifC04_TiebreakKeys(t *testing.T) {
 		forward := crit != "end" && crit != "pathname"
 		pat := BuildPattern(NewChunkCache(), map[string]*Pattern{}, true, algo.FuzzyMatchV2, true, CaseSmart, true, forward, true, false, nil, Delimiter{}, revision{}, []rune(query), nil)
 		type keyed struct {
-			text        string
-			key         uint16
-			minB, maxE  int
-			frac        float64
-			score       uint16
+			text       string
+			key        uint16
+			minB, maxE int
+			frac       float64
+			score      uint16
 		}
 		var items []keyed
 		nitems := rapid.IntRange(1, 3).Draw(t, "nitems")
